@@ -22,7 +22,7 @@ ASSUMPTIONS = ["to_unitary is the ordered product (C01)", "symbolic circuits are
                "exp gates are not unitary: for them only (c.inverse()).inverse() and widths are judged, as the statement's adjoint/identity claims presuppose unitary gates... see DESIGN 4/C08"]
 BOUNDS = {"quick": {"n": 3, "L": 2}, "thorough": {"n": 3, "L": 3}}
 ATOL = 1e-8
-SUBS = [{"theta": 0.3}, {"theta": -1.7}]
+SUBS = [{"theta": 0.3, "zeta": complex(np.cos(0.7), np.sin(0.7))}, {"theta": -1.7, "zeta": complex(np.cos(-2.1), np.sin(-2.1))}]
 
 
 def ops_alphabet():
@@ -34,6 +34,8 @@ def ops_alphabet():
         A += [{"gate": g, "q": list(p)} for p in ((0, 1), (2, 0), (1, 2))]
     A.append({"gate": W("exp", G("RZ", 0.3)), "q": [1]})
     # parameters that are EXPRESSIONS of the symbol (an inverse / controlled version is built first and bound afterwards)
+    # a custom gate whose parameter takes complex (unit-modulus) values: conjugation is real work for its dagger
+    A += [{"gate": G("customz", "s:zeta"), "q": [0]}, {"gate": W("controlled", G("customz", "s:zeta"), k=1), "q": [2, 1]}]
     A += [{"gate": G("RX", "s:2*theta"), "q": [1]}, {"gate": G("RY", "s:theta+0.5"), "q": [2]}, {"gate": W("controlled", G("RZ", "s:-theta/2"), k=1), "q": [0, 2]}, {"gate": G("U3", "s:theta", 0.4, "s:3*theta"), "q": [0]}]
     # second members of each wrapper kind with EQUAL parameters (wrapper names alone do not identify a gate): c-Z next to c-X, S.dagger next to T.dagger, ...
     A += [{"gate": W("controlled", G("Z"), k=1), "q": list(p)} for p in ((0, 1), (2, 0), (1, 2))]
@@ -75,7 +77,8 @@ def bound_ops(ops, sub):
 
     def walk(x):
         if isinstance(x, str) and x.startswith("s:"):
-            return float(sympy.sympify(param(x)).subs({sympy.Symbol(k): v for k, v in sub.items()}))
+            v_ = complex(sympy.sympify(param(x)).subs({sympy.Symbol(k): v for k, v in sub.items()}))
+            return v_.real if abs(v_.imag) < 1e-15 else "c:%r,%r" % (v_.real, v_.imag)
         if isinstance(x, list):
             return [walk(v) for v in x]
         if isinstance(x, dict):
@@ -106,6 +109,15 @@ def inverse_case(case):
             if whole.free_symbols or not _close(unitary(whole, {}), Ui, atol=ATOL):
                 return {"ok": False, "msg": "the inverse bound with Circuit.bind still has free symbols / differs from the inverse bound operation by operation", "sig": "inverse:bind", "ops": k}
         Uii = unitary(inv.inverse(), sub) if inv.operations else np.eye(2 ** n)
+        if inv.operations and inv.free_symbols:
+            # the inverse evaluated the other way round: every gate matrix taken while still symbolic, the values substituted afterwards
+            m_ = {sympy.Symbol(k_): v_ for k_, v_ in sub.items()}
+            Ul = np.eye(2 ** n, dtype=complex)
+            for o_ in inv.operations:
+                Ul = L.embed(num(sympy.Matrix(o_.gate.matrix).subs(m_)), tuple(o_.qubit_indices), n) @ Ul
+            k += 1
+            if not _close(Ul, Ui, atol=ATOL):
+                return {"ok": False, "msg": "the inverse's symbolic gate matrices evaluated at %s differ from the matrices of the inverse bound first" % sub, "sig": "inverse:late-substitution", "ops": k}
         k += 2
         if not _close(Uii, U, atol=ATOL):
             return {"ok": False, "msg": "inverting twice does not return a circuit with the original action", "sig": "inverse:double" + (":frac" if frac_herm else ""), "ops": k}
